@@ -21,6 +21,7 @@ import (
 )
 
 func TestMain(m *testing.M) {
+	RunRemoteServerIfAsked()
 	SilenceLogs()
 	os.Exit(m.Run())
 }
